@@ -1,10 +1,880 @@
-//! (world under construction)
-use crate::{report::{Stats, Violation}, supervisor::Finding};
+//! CONC world: 2-4 real client threads share one real Memfs. Only one thread ever runs: every
+//! thread parks at each guard acquisition (hook H1) and at each operation boundary, and a seeded
+//! controller decides who proceeds, modelling a writer-preferring RwLock. Checked while the run
+//! proceeds: deadlock, panic, poison, C03 at quiescent points. Checked over the recorded history:
+//! linearizability against sequential executions of the real code, append conservation.
+use std::{
+    path::{Path, PathBuf},
+    sync::{Arc, Condvar, Mutex},
+};
 
-pub fn run_index(_id: &str, _tier: &str, _seed: u64, _idx: u64, _stats: &mut Stats, _known: &dyn Fn(&Violation) -> bool) -> Option<Finding> {
-    None
+use rivia::prelude::*;
+use serde::{Deserialize, Serialize};
+use serde_json::json;
+
+use crate::{
+    exec::{self, Handles},
+    gen::{Gen, Profile},
+    hooks::{apply_order, Knobs},
+    model::Model,
+    ops::*,
+    prng::{hash_bytes, hash_str, mix, Rng},
+    refpath::Env,
+    report::{Stats, Violation},
+    seq,
+    supervisor::{pick_knobs, Finding},
+    tree,
+};
+
+#[derive(Clone, Copy, Debug, PartialEq, Eq)]
+enum Point {
+    Op(usize),
+    Acquire(bool),
 }
 
-pub fn replay(_case: &serde_json::Value) -> Result<(Option<Violation>, String), String> {
-    Err("world not implemented".into())
+#[derive(Clone, Copy, Debug, PartialEq, Eq)]
+enum Status {
+    Running,
+    Parked(Point),
+    Done,
+}
+
+#[derive(Default)]
+struct LockModel {
+    holders_r: Vec<usize>,
+    holder_w: Option<usize>,
+    /// queued acquisitions: (tid, write, eligible to re-attempt)
+    blocked: Vec<(usize, bool, bool)>,
+}
+
+impl LockModel {
+    fn grantable(&self, tid: usize, write: bool) -> bool {
+        if write {
+            self.holder_w.is_none() && self.holders_r.is_empty()
+        } else {
+            // writer preference: a reader is not admitted while a writer is queued
+            self.holder_w.is_none() && !self.blocked.iter().any(|(t, w, _)| *w && *t != tid)
+        }
+    }
+    fn refresh(&mut self) {
+        let free = self.holder_w.is_none() && self.holders_r.is_empty();
+        let no_writer = self.holder_w.is_none();
+        let writers_queued = self.blocked.iter().any(|(_, w, _)| *w);
+        for b in self.blocked.iter_mut() {
+            b.2 = if b.1 { free } else { no_writer && !writers_queued };
+        }
+    }
+}
+
+struct State {
+    status: Vec<Status>,
+    go: Vec<bool>,
+    abort: bool,
+    lock: LockModel,
+    seq: u64,
+    /// log of scheduler events (for the event-log hash and for reports)
+    log: Vec<(u64, usize, &'static str)>,
+    nested_seen: u64,
+}
+
+struct Shared {
+    m: Mutex<State>,
+    cv_ctrl: Condvar,
+    cv_thr: Vec<Condvar>,
+}
+
+struct AbortRun;
+
+impl Shared {
+    fn park(&self, tid: usize, point: Point) {
+        let mut st = self.m.lock().unwrap();
+        st.status[tid] = Status::Parked(point);
+        self.cv_ctrl.notify_one();
+        while !st.go[tid] && !st.abort {
+            st = self.cv_thr[tid].wait(st).unwrap();
+        }
+        if !st.go[tid] && st.abort {
+            st.status[tid] = Status::Running;
+            drop(st);
+            // leave the operation by unwinding: the run is over (deadlock or teardown)
+            std::panic::resume_unwind(Box::new(AbortRun));
+        }
+        st.go[tid] = false;
+        st.status[tid] = Status::Running;
+    }
+    fn stamp(&self, tid: usize, what: &'static str) -> u64 {
+        let mut st = self.m.lock().unwrap();
+        st.seq += 1;
+        let s = st.seq;
+        st.log.push((s, tid, what));
+        s
+    }
+    fn finish(&self, tid: usize) {
+        let mut st = self.m.lock().unwrap();
+        st.status[tid] = Status::Done;
+        self.cv_ctrl.notify_one();
+    }
+}
+
+struct ConcHooks {
+    tid: usize,
+    sh: Arc<Shared>,
+    knobs: Knobs,
+}
+
+impl rivia::verif::Hooks for ConcHooks {
+    fn before_acquire(&self, write: bool) {
+        self.sh.park(self.tid, Point::Acquire(write));
+    }
+    fn released(&self, write: bool) {
+        let mut st = self.sh.m.lock().unwrap();
+        if write {
+            if st.lock.holder_w == Some(self.tid) {
+                st.lock.holder_w = None;
+            }
+        } else if let Some(i) = st.lock.holders_r.iter().position(|t| *t == self.tid) {
+            st.lock.holders_r.remove(i);
+        }
+        st.lock.refresh();
+        st.seq += 1;
+        let s = st.seq;
+        st.log.push((s, self.tid, if write { "release-w" } else { "release-r" }));
+    }
+    fn dir_order(&self, dir: &Path, items: &mut Vec<PathBuf>) {
+        apply_order(&self.knobs, dir, items);
+    }
+    fn max_descriptors(&self) -> Option<u16> {
+        self.knobs.max_desc
+    }
+}
+
+#[derive(Clone, Debug, Serialize, Deserialize)]
+pub struct ConcCase {
+    pub format: u32,
+    pub property: String,
+    pub world: String,
+    pub seed: u64,
+    pub run: u64,
+    pub knobs: Knobs,
+    pub env: Env,
+    pub setup: Vec<Op>,
+    pub threads: Vec<Vec<Op>>,
+    /// index into the sorted list of attemptable threads at every scheduler decision
+    pub schedule: Vec<usize>,
+    /// true: operations are single-step and the history is checked for linearizability
+    pub linearizable: bool,
+    pub expect: Option<seq::ExpectSig>,
+    pub log_hash: String,
+    #[serde(default)]
+    pub what: String,
+}
+
+#[derive(Clone, Debug)]
+pub struct OpRecord {
+    pub tid: usize,
+    pub idx: usize,
+    pub inv: u64,
+    pub ret: u64,
+    pub out: Outcome,
+}
+
+pub struct ConcOut {
+    pub schedule: Vec<usize>,
+    pub records: Vec<OpRecord>,
+    pub violations: Vec<Violation>,
+    pub log_hash: u64,
+    pub events: u64,
+    pub switches: u64,
+    pub nested: u64,
+    pub final_snap: Option<rivia::verif::VerifSnapshot>,
+}
+
+enum Chooser<'a> {
+    Random { rng: &'a mut Rng, pct: Option<Vec<u64>> },
+    Replay { list: &'a [usize], pos: usize },
+}
+
+fn apply_setup(fs: &Memfs, setup: &[Op], knobs: &Knobs) {
+    let h = crate::hooks::install_seq(knobs);
+    let mut hs = Handles::default();
+    for op in setup {
+        let _ = exec::exec(fs, &mut hs, op);
+    }
+    hs.clear();
+    drop(h);
+    crate::hooks::uninstall();
+}
+
+/// Execute one (program, schedule) pair
+fn execute(case: &ConcCase, chooser: &mut Chooser) -> ConcOut {
+    seq::set_env(&case.env);
+    let fs = Arc::new(Memfs::new());
+    apply_setup(&fs, &case.setup, &case.knobs);
+    let n = case.threads.len();
+    let sh = Arc::new(Shared {
+        m: Mutex::new(State {
+            status: vec![Status::Running; n],
+            go: vec![false; n],
+            abort: false,
+            lock: LockModel::default(),
+            seq: 0,
+            log: vec![],
+            nested_seen: 0,
+        }),
+        cv_ctrl: Condvar::new(),
+        cv_thr: (0..n).map(|_| Condvar::new()).collect(),
+    });
+    let records: Arc<Mutex<Vec<OpRecord>>> = Arc::new(Mutex::new(vec![]));
+    let mut joins = vec![];
+    for (tid, ops) in case.threads.iter().enumerate() {
+        let (fs, sh, ops, knobs, records) = (fs.clone(), sh.clone(), ops.clone(), case.knobs.clone(), records.clone());
+        joins.push(std::thread::spawn(move || {
+            rivia::verif::install(Some(Arc::new(ConcHooks { tid, sh: sh.clone(), knobs })));
+            let mut hs = Handles::default();
+            let res = std::panic::catch_unwind(std::panic::AssertUnwindSafe(|| {
+                for (i, op) in ops.iter().enumerate() {
+                    sh.park(tid, Point::Op(i));
+                    let inv = sh.stamp(tid, "invoke");
+                    let out = exec::exec(&*fs, &mut hs, op);
+                    let ret = sh.stamp(tid, "return");
+                    let aborted = matches!(&out, Outcome::Panic(m) if m == "<non-string panic>") && sh.m.lock().unwrap().abort;
+                    if !aborted {
+                        records.lock().unwrap().push(OpRecord { tid, idx: i, inv, ret, out });
+                    }
+                }
+                // handles still open are dropped here, under the scheduler like everything else
+                hs.clear();
+            }));
+            let _ = res;
+            rivia::verif::install(None);
+            sh.finish(tid);
+        }));
+    }
+
+    let mut schedule = vec![];
+    let mut violations = vec![];
+    let mut switches = 0u64;
+    let mut last: Option<usize> = None;
+    let mut decisions = 0u64;
+    loop {
+        let mut st = sh.m.lock().unwrap();
+        while st.status.iter().any(|s| *s == Status::Running) {
+            st = sh.cv_ctrl.wait(st).unwrap();
+        }
+        if st.status.iter().all(|s| *s == Status::Done) {
+            break;
+        }
+        // quiescent point: every unfinished thread sits between two operations
+        let quiescent = st.status.iter().all(|s| matches!(s, Status::Done | Status::Parked(Point::Op(_))));
+        if quiescent {
+            drop(st);
+            let snap = fs.verif_snapshot();
+            let br = tree::integrity(&snap);
+            if !br.is_empty() {
+                let mut kinds: Vec<&str> = br.iter().map(|b| b.what).collect();
+                kinds.sort();
+                kinds.dedup();
+                violations.push(Violation {
+                    property: "C04".into(),
+                    oracle: "integrity-at-quiescence".into(),
+                    step: decisions as usize,
+                    sig: format!("quiescent-integrity|{}", kinds.join("+")),
+                    detail: format!("{:?}", br.iter().take(5).collect::<Vec<_>>()),
+                });
+                let mut st = sh.m.lock().unwrap();
+                st.abort = true;
+                for c in &sh.cv_thr {
+                    c.notify_all();
+                }
+                drop(st);
+                break;
+            }
+            st = sh.m.lock().unwrap();
+        }
+        let mut attemptable: Vec<usize> = vec![];
+        for (t, s) in st.status.iter().enumerate() {
+            if let Status::Parked(_) = s {
+                match st.lock.blocked.iter().find(|b| b.0 == t) {
+                    Some(b) if !b.2 => {},
+                    _ => attemptable.push(t),
+                }
+            }
+        }
+        if attemptable.is_empty() {
+            // every unfinished thread waits for a lock that can never be granted
+            let waiting: Vec<String> = st
+                .status
+                .iter()
+                .enumerate()
+                .filter_map(|(t, s)| match s {
+                    Status::Parked(Point::Acquire(w)) => Some(format!(
+                        "t{} wants {} while holding {}",
+                        t,
+                        if *w { "write" } else { "read" },
+                        if st.lock.holder_w == Some(t) {
+                            "write"
+                        } else if st.lock.holders_r.contains(&t) {
+                            "read"
+                        } else {
+                            "nothing"
+                        }
+                    )),
+                    _ => None,
+                })
+                .collect();
+            let nested: Vec<&String> = waiting.iter().filter(|w| !w.ends_with("nothing")).collect();
+            let what = if nested.iter().any(|w| w.contains("wants write")) {
+                "nested-write"
+            } else if nested.iter().any(|w| w.contains("holding write")) {
+                "nested-under-write"
+            } else {
+                "nested-read-with-writer-queued"
+            };
+            violations.push(Violation {
+                property: "C04".into(),
+                oracle: "deadlock".into(),
+                step: decisions as usize,
+                sig: format!("deadlock|{}", what),
+                detail: format!("no thread can proceed: {}", waiting.join("; ")),
+            });
+            st.abort = true;
+            for c in &sh.cv_thr {
+                c.notify_all();
+            }
+            drop(st);
+            break;
+        }
+        decisions += 1;
+        let pick = match chooser {
+            Chooser::Random { rng, pct } => match pct {
+                None => rng.below(attemptable.len()),
+                Some(prio) => {
+                    // PCT-style: highest priority attemptable thread, priorities change at a few
+                    // seeded points
+                    if rng.chance(1, 12) {
+                        let t = rng.below(prio.len());
+                        prio[t] = rng.next() % 1000;
+                    }
+                    let mut best = 0;
+                    for (i, t) in attemptable.iter().enumerate() {
+                        if prio[*t] > prio[attemptable[best]] {
+                            best = i;
+                        }
+                    }
+                    best
+                },
+            },
+            Chooser::Replay { list, pos } => {
+                let c = if *pos < list.len() { list[*pos] % attemptable.len() } else { 0 };
+                *pos += 1;
+                c
+            },
+        };
+        schedule.push(pick);
+        let t = attemptable[pick];
+        if last.is_some() && last != Some(t) {
+            switches += 1;
+        }
+        last = Some(t);
+        let point = match st.status[t] {
+            Status::Parked(p) => p,
+            _ => unreachable!(),
+        };
+        st.seq += 1;
+        let s = st.seq;
+        match point {
+            Point::Op(_) => {
+                st.log.push((s, t, "start-op"));
+                st.go[t] = true;
+                st.status[t] = Status::Running;
+                sh.cv_thr[t].notify_all();
+            },
+            Point::Acquire(w) => {
+                let holds = st.lock.holder_w == Some(t) || st.lock.holders_r.contains(&t);
+                if holds {
+                    st.nested_seen += 1;
+                }
+                if st.lock.grantable(t, w) {
+                    st.lock.blocked.retain(|b| b.0 != t);
+                    if w {
+                        st.lock.holder_w = Some(t);
+                    } else {
+                        st.lock.holders_r.push(t);
+                    }
+                    st.log.push((s, t, if w { "acquire-w" } else { "acquire-r" }));
+                    st.go[t] = true;
+                    st.status[t] = Status::Running;
+                    sh.cv_thr[t].notify_all();
+                } else {
+                    st.log.push((s, t, if w { "queue-w" } else { "queue-r" }));
+                    if let Some(b) = st.lock.blocked.iter_mut().find(|b| b.0 == t) {
+                        b.2 = false;
+                    } else {
+                        st.lock.blocked.push((t, w, false));
+                    }
+                }
+            },
+        }
+    }
+    for j in joins {
+        let _ = j.join();
+    }
+    let st = sh.m.lock().unwrap();
+    let mut log = 0u64;
+    for (s, t, w) in &st.log {
+        log = hash_bytes(log, &s.to_le_bytes());
+        log = hash_bytes(log, &[*t as u8]);
+        log = hash_bytes(log, w.as_bytes());
+    }
+    let events = st.log.len() as u64;
+    let nested = st.nested_seen;
+    drop(st);
+    let mut recs = records.lock().unwrap().clone();
+    recs.sort_by_key(|r| r.inv);
+    for r in &recs {
+        log = hash_bytes(log, format!("{:?}", r.out).as_bytes());
+    }
+    let final_snap = if violations.is_empty() { Some(fs.verif_snapshot()) } else { None };
+    if let Some(s) = &final_snap {
+        log = hash_bytes(log, &tree::tree_of(s).full_hash().to_le_bytes());
+    }
+    ConcOut { schedule, records: recs, violations, log_hash: log, events, switches, nested, final_snap }
+}
+
+fn outcomes_agree(conc: &Outcome, seqo: &Outcome) -> bool {
+    match (conc, seqo) {
+        (Outcome::Err(_), Outcome::Err(_)) => true, // which error a racing call reports is not documented
+        (a, b) => a == b,
+    }
+}
+
+/// Search for a sequential order of the recorded operations (program order + real-time precedence)
+/// under which the real code, run sequentially, gives the same outcomes and the same final state
+fn linearizable(case: &ConcCase, recs: &[OpRecord], final_snap: &rivia::verif::VerifSnapshot, budget: &mut u64) -> Result<bool, ()> {
+    let n = recs.len();
+    let mut order: Vec<usize> = vec![];
+    let mut used = vec![false; n];
+    fn run_prefix(case: &ConcCase, recs: &[OpRecord], order: &[usize]) -> (Memfs, bool) {
+        let fs = Memfs::new();
+        apply_setup(&fs, &case.setup, &case.knobs);
+        let h = crate::hooks::install_seq(&case.knobs);
+        let mut hs = Handles::default();
+        let mut ok = true;
+        for &i in order {
+            let r = &recs[i];
+            let out = exec::exec(&fs, &mut hs, &case.threads[r.tid][r.idx]);
+            if !outcomes_agree(&r.out, &out) {
+                ok = false;
+                break;
+            }
+        }
+        hs.clear();
+        drop(h);
+        crate::hooks::uninstall();
+        (fs, ok)
+    }
+    fn dfs(
+        case: &ConcCase, recs: &[OpRecord], final_snap: &rivia::verif::VerifSnapshot, order: &mut Vec<usize>, used: &mut Vec<bool>, budget: &mut u64,
+    ) -> Result<bool, ()> {
+        let n = recs.len();
+        if *budget == 0 {
+            return Err(());
+        }
+        if order.len() == n {
+            *budget -= 1;
+            let (fs, ok) = run_prefix(case, recs, order);
+            return Ok(ok && fs.verif_snapshot() == *final_snap);
+        }
+        // candidates: unused ops all of whose predecessors (program order, real-time) are used
+        for i in 0..n {
+            if used[i] {
+                continue;
+            }
+            let ready = (0..n).all(|j| {
+                if used[j] || j == i {
+                    return true;
+                }
+                let before = (recs[j].tid == recs[i].tid && recs[j].idx < recs[i].idx) || recs[j].ret < recs[i].inv;
+                !before
+            });
+            if !ready {
+                continue;
+            }
+            order.push(i);
+            used[i] = true;
+            // prune: the prefix must already agree
+            *budget = budget.saturating_sub(1);
+            let (_, ok) = run_prefix(case, recs, order);
+            let res = if ok { dfs(case, recs, final_snap, order, used, budget) } else { Ok(false) };
+            order.pop();
+            used[i] = false;
+            match res {
+                Ok(true) => return Ok(true),
+                Ok(false) => {},
+                Err(()) => return Err(()),
+            }
+        }
+        Ok(false)
+    }
+    dfs(case, recs, final_snap, &mut order, &mut used, budget)
+}
+
+/// All checks over one executed case
+fn judge(case: &ConcCase, out: &ConcOut, stats: &mut Stats) -> Vec<Violation> {
+    let mut v = out.violations.clone();
+    for r in &out.records {
+        if let Outcome::Panic(msg) = &r.out {
+            let op = &case.threads[r.tid][r.idx];
+            v.push(Violation {
+                property: "C04".into(),
+                oracle: "no-panic".into(),
+                step: r.idx,
+                sig: format!("panic|{}", op.name()),
+                detail: format!("thread {} op {:?} panicked: {}", r.tid, op, msg),
+            });
+        }
+    }
+    if let Some(snap) = &out.final_snap {
+        if snap.poisoned {
+            v.push(Violation { property: "C04".into(), oracle: "poison".into(), step: 0, sig: "poisoned-lock".into(), detail: "lock poisoned at the end of the run".into() });
+        }
+        let br = tree::integrity(snap);
+        if !br.is_empty() && !snap.poisoned {
+            let mut kinds: Vec<&str> = br.iter().map(|b| b.what).collect();
+            kinds.sort();
+            kinds.dedup();
+            v.push(Violation {
+                property: "C04".into(),
+                oracle: "integrity-at-quiescence".into(),
+                step: 0,
+                sig: format!("final-integrity|{}", kinds.join("+")),
+                detail: format!("{:?}", br.iter().take(5).collect::<Vec<_>>()),
+            });
+        }
+        if v.is_empty() && case.linearizable {
+            let total: usize = case.threads.iter().map(|t| t.len()).sum();
+            if out.records.len() == total {
+                // append conservation (the headline special case, cheap and independent)
+                let t = tree::tree_of(snap);
+                for r in &out.records {
+                    if let (Op::AppendAll { d, .. }, true) = (&case.threads[r.tid][r.idx], r.out.is_ok()) {
+                        let only_appends = case.threads.iter().flatten().all(|o| matches!(o, Op::AppendAll { .. } | Op::ReadAll { .. } | Op::Exists { .. }));
+                        if only_appends && !d.0.is_empty() {
+                            let total_hits: usize = t
+                                .nodes
+                                .values()
+                                .filter_map(|n| n.data.as_ref())
+                                .map(|b| b.0.windows(d.0.len()).filter(|w| *w == &d.0[..]).count())
+                                .sum();
+                            stats.bump("append_conservation_checked");
+                            if total_hits != 1 {
+                                v.push(Violation {
+                                    property: "C04".into(),
+                                    oracle: "append-conservation".into(),
+                                    step: r.idx,
+                                    sig: "lost-or-duplicated-append".into(),
+                                    detail: format!("append {:?} by thread {} present {} times in the final content", d, r.tid, total_hits),
+                                });
+                                return v;
+                            }
+                        }
+                    }
+                }
+                let mut budget = 6000u64;
+                match linearizable(case, &out.records, snap, &mut budget) {
+                    Ok(true) => stats.bump("linearizable_histories"),
+                    Ok(false) => {
+                        let mut names: Vec<&str> = case.threads.iter().flatten().map(|o| o.name()).collect();
+                        names.sort();
+                        v.push(Violation {
+                            property: "C04".into(),
+                            oracle: "linearizability".into(),
+                            step: 0,
+                            sig: format!("nonlinearizable|{}", names.join(",")),
+                            detail: format!(
+                                "no sequential order explains outcomes {:?}",
+                                out.records.iter().map(|r| (r.tid, r.idx, r.inv, r.ret, r.out.class())).collect::<Vec<_>>()
+                            ),
+                        });
+                    },
+                    Err(()) => stats.bump("linearizability_budget_exhausted"),
+                }
+            }
+        }
+    }
+    v
+}
+
+pub const SINGLE_STEP: &[(&str, u32)] = &[
+    ("mkdir_p", 8),
+    ("mkdir_m", 3),
+    ("mkfile", 6),
+    ("remove", 6),
+    ("remove_all", 4),
+    ("move_p", 6),
+    ("copy", 5),
+    ("symlink", 4),
+    ("set_cwd", 3),
+    ("append_all", 10),
+    ("write_all", 8),
+    ("read_all", 6),
+    ("read_lines", 1),
+    ("exists", 3),
+    ("is_dir", 2),
+    ("is_file", 2),
+    ("mode", 1),
+    ("readlink", 1),
+    ("paths", 3),
+    ("dirs", 2),
+    ("files", 2),
+    ("all_paths", 3),
+    ("all_files", 1),
+    ("cwd", 1),
+];
+
+pub const SAFETY_ONLY: &[(&str, u32)] = &[
+    ("chmod", 4),
+    ("chmod_b", 4),
+    ("chown", 3),
+    ("chown_b", 2),
+    ("mkfile_m", 4),
+    ("entries", 4),
+    ("open_read", 2),
+    ("open_write", 3),
+    ("open_append", 3),
+    ("h_write", 6),
+    ("h_flush", 3),
+    ("h_drop", 3),
+    ("h_drop_unwind", 1),
+    ("h_read_to_end", 1),
+];
+
+fn profile(linz: bool) -> Profile {
+    Profile {
+        name: if linz { "conc-single-step" } else { "conc-safety-only" },
+        weights: if linz { SINGLE_STEP.to_vec() } else { crate::gen::cat(&[SINGLE_STEP, SAFETY_ONLY]) },
+        spelling: 1,
+        hostile: 0,
+        swarm_drop: 35,
+        max_len: 6,
+        big_data: false,
+    }
+}
+
+fn generate(seed: u64, idx: u64, rng: &mut Rng) -> ConcCase {
+    let linz = !rng.chance(1, 4);
+    let knobs = pick_knobs(rng);
+    let mut gen = Gen::new(profile(linz), format!("{}", idx), rng);
+    // few names and shallow trees force conflicts
+    gen.names.truncate(rng.range(2, 4).min(gen.names.len()));
+    gen.max_depth = rng.range(1, 2);
+    let env = crate::gen::make_env(&gen.names, rng);
+    // the setup prefix is generated against the reference model (state-aware arguments)
+    let mut m = Model::new(env.clone());
+    let mut setup = vec![];
+    let ns = rng.below(7);
+    let setup_kinds = ["mkdir_p", "mkdir_p", "mkfile", "write_all", "write_all", "symlink", "append_all"];
+    let scratch = Memfs::new();
+    let mut hs = Handles::default();
+    seq::set_env(&env);
+    for _ in 0..ns {
+        let k = *rng.pick(&setup_kinds);
+        let op = gen.build(k, &m, rng);
+        let out = exec::exec(&scratch, &mut hs, &op);
+        let pre = m.t.clone();
+        let snap = scratch.verif_snapshot();
+        if tree::integrity(&snap).is_empty() {
+            m.t = tree::tree_of(&snap);
+        }
+        m.after(&op, &out, &pre);
+        setup.push(op);
+    }
+    let nthreads = if linz { rng.range(2, 3) } else { rng.range(2, 4) };
+    let mut threads = vec![];
+    for _ in 0..nthreads {
+        let nops = if linz { rng.range(1, 3) } else { rng.range(1, 6) };
+        let mut ops = vec![];
+        for _ in 0..nops {
+            let op = gen.next_op(&m, rng);
+            // inputs that hang or blow up sequentially say nothing about schedules
+            ops.push(op);
+        }
+        threads.push(ops);
+    }
+    ConcCase {
+        format: 1,
+        property: "C04".into(),
+        world: "CONC".into(),
+        seed,
+        run: idx,
+        knobs,
+        env,
+        setup,
+        threads,
+        schedule: vec![],
+        linearizable: linz,
+        expect: None,
+        log_hash: String::new(),
+        what: String::new(),
+    }
+}
+
+fn run_case(case: &ConcCase, stats: &mut Stats) -> (Vec<Violation>, ConcOut) {
+    let mut ch = Chooser::Replay { list: &case.schedule, pos: 0 };
+    let out = execute(case, &mut ch);
+    let v = judge(case, &out, stats);
+    (v, out)
+}
+
+fn oracle_of(sig: &str) -> &str {
+    sig.split('|').next().unwrap_or(sig)
+}
+
+fn minimise(mut case: ConcCase, sig: &str) -> ConcCase {
+    let target = oracle_of(sig).to_string();
+    let still = |c: &ConcCase| -> Option<(Violation, Vec<usize>)> {
+        let mut st = Stats::default();
+        let (v, out) = run_case(c, &mut st);
+        v.into_iter().find(|x| oracle_of(&x.sig) == target).map(|x| (x, out.schedule))
+    };
+    if still(&case).is_none() {
+        return case;
+    }
+    let mut budget = 150;
+    // drop setup operations
+    let mut i = 0;
+    while i < case.setup.len() && budget > 0 {
+        let mut c2 = case.clone();
+        c2.setup.remove(i);
+        budget -= 1;
+        if still(&c2).is_some() {
+            case = c2;
+        } else {
+            i += 1;
+        }
+    }
+    // drop thread operations (and with them empty threads)
+    let mut t = 0;
+    while t < case.threads.len() && budget > 0 {
+        let mut i = 0;
+        while i < case.threads[t].len() && budget > 0 {
+            let mut c2 = case.clone();
+            c2.threads[t].remove(i);
+            if c2.threads[t].is_empty() {
+                c2.threads.remove(t);
+            }
+            budget -= 1;
+            if c2.threads.len() >= 1 && still(&c2).is_some() {
+                case = c2;
+                if t >= case.threads.len() {
+                    break;
+                }
+            } else {
+                i += 1;
+            }
+        }
+        t += 1;
+    }
+    // try the simplest schedules: all zeros, then truncations
+    for cut in [0usize, case.schedule.len() / 2] {
+        let mut c2 = case.clone();
+        c2.schedule.truncate(cut);
+        if still(&c2).is_some() {
+            case = c2;
+            break;
+        }
+    }
+    let mut c2 = case.clone();
+    c2.knobs = Knobs::default();
+    if still(&c2).is_some() {
+        case = c2;
+    }
+    if let Some((v, sched)) = still(&case) {
+        case.schedule = sched;
+        case.expect = Some(seq::ExpectSig { sig: v.sig.clone(), step: v.step });
+        case.what = v.detail;
+        let mut st = Stats::default();
+        let (_, out) = run_case(&case, &mut st);
+        case.log_hash = format!("{:016x}", out.log_hash);
+    }
+    case
+}
+
+pub fn run_index(id: &str, tier: &str, seed: u64, idx: u64, stats: &mut Stats, known: &dyn Fn(&Violation) -> bool) -> Option<Finding> {
+    // one program, several seeded schedules
+    let prog_idx = idx / 4;
+    let rs = mix(&[seed, hash_str(id), hash_str(tier), prog_idx]);
+    let mut prng = Rng::new(rs);
+    let mut case = generate(seed, idx, &mut prng);
+    let mut srng = Rng::new(mix(&[rs, idx % 4, 0x5c4ed]));
+    let pct = if srng.chance(1, 2) { Some((0..case.threads.len()).map(|_| srng.next() % 1000).collect()) } else { None };
+    stats.runs += 1;
+    let out = {
+        let mut ch = Chooser::Random { rng: &mut srng, pct };
+        execute(&case, &mut ch)
+    };
+    case.schedule = out.schedule.clone();
+    let v = judge(&case, &out, stats);
+    stats.steps += out.records.len() as u64;
+    stats.sched_events += out.events;
+    stats.add("context_switches", out.switches);
+    stats.add("nested_acquisitions_seen", out.nested);
+    if out.nested > 0 {
+        stats.bump("probe.nested_acquisition_seen");
+    }
+    stats.add("fault.F5_preemptions_at_guard_or_op_boundary", out.switches);
+    if out.records.iter().any(|r| matches!(r.out, Outcome::Panic(_))) {
+        stats.bump("fault.F6_client_thread_panicked");
+    }
+    let prog_hash = hash_str(&format!("{:?}{:?}", case.setup, case.threads));
+    let sched_hash = hash_str(&format!("{:?}", case.schedule));
+    stats.distinct_cases.insert(mix(&[prog_hash, sched_hash]));
+    stats.distinct_cases.insert(out.log_hash);
+    let pair = format!("{:016x}|{:016x}", prog_hash, sched_hash);
+    if out.switches > 0 {
+        stats.triples.insert(pair);
+    } else {
+        stats.trivial_triples.insert(pair);
+    }
+    stats.shapes.insert(prog_hash);
+    if case.linearizable {
+        stats.bump("programs_checked_for_linearizability");
+    } else {
+        stats.bump("programs_safety_only");
+    }
+    // preemption between the two guards of one operation
+    for o in case.threads.iter().flatten() {
+        stats.bump(&format!("op.{}", o.name()));
+    }
+    if stats.samples.len() < 3 && case.threads.iter().map(|t| t.len()).sum::<usize>() <= 5 {
+        stats.samples.push(json!({"run": idx, "setup": case.setup, "threads": case.threads, "schedule": case.schedule, "outcomes": out.records.iter().map(|r| (r.tid, r.idx, r.out.class())).collect::<Vec<_>>()}));
+    }
+    let mut first = None;
+    for x in v {
+        if known(&x) {
+            *stats.known_hits.entry(x.sig.clone()).or_insert(0) += 1;
+        } else if first.is_none() {
+            first = Some(x);
+        }
+    }
+    let x = first?;
+    let case = minimise(case, &x.sig);
+    let mut x = x;
+    if let Some(e) = &case.expect {
+        x.sig = e.sig.clone();
+        x.step = e.step;
+    }
+    if known(&x) {
+        *stats.known_hits.entry(x.sig.clone()).or_insert(0) += 1;
+        return None;
+    }
+    x.detail = format!("{} | program: setup {:?} threads {:?} schedule {:?}", case.what, case.setup, case.threads, case.schedule);
+    Some(Finding { violation: x, case: serde_json::to_value(&case).unwrap() })
+}
+
+pub fn replay(case: &serde_json::Value) -> Result<(Option<Violation>, String), String> {
+    let c: ConcCase = serde_json::from_value(case.clone()).map_err(|e| e.to_string())?;
+    let mut st = Stats::default();
+    let (v, out) = run_case(&c, &mut st);
+    Ok((v.into_iter().next(), format!("{:016x}", out.log_hash)))
 }
